@@ -552,7 +552,15 @@ impl CoseKeyBuilder {
     
 
     /// Constructor for an elliptic curve public key specified by `x` and `y` coordinates.
-    pub fn new_ec2_pub_key(curve: iana::EllipticCurve, x: Vec<u8>, y: Vec<u8>) -> Self {
+    «pub open spec fn key_other_fields_default(k: CoseKey) -> bool {
+        k.key_id@.len() == 0 && k.alg is None && k.key_ops@ == Set::<KeyOperation>::empty() && k.base_iv@.len() == 0
+    }
+    pub open spec fn is_int_value(v: Value, n: int) -> bool { v matches Value::Integer(i) && int_val(i) == n }»
+    pub fn new_ec2_pub_key(curve: iana::EllipticCurve, x: Vec<u8>, y: Vec<u8>) ->« (r:» Self«)
+        ensures r.inner().kty == KeyType::Assigned(iana::KeyType::EC2), Self::key_other_fields_default(r.inner()),
+            r.inner().params@.len() == 3,
+            r.inner().params@[0].0 == Label::Int(-1i64) && Self::is_int_value(r.inner().params@[0].1, curve.spec_to_i64() as int),
+            r.inner().params@[1] == (Label::Int(-2i64), Value::Bytes(x)), r.inner().params@[2] == (Label::Int(-3i64), Value::Bytes(y)),» {
         Self(CoseKey {
             kty: KeyType::Assigned(iana::KeyType::EC2),
             params: vec![
@@ -569,7 +577,11 @@ impl CoseKeyBuilder {
 
     /// Constructor for an elliptic curve public key specified by `x` coordinate plus sign of `y`
     /// coordinate.
-    pub fn new_ec2_pub_key_y_sign(curve: iana::EllipticCurve, x: Vec<u8>, y_sign: bool) -> Self {
+    pub fn new_ec2_pub_key_y_sign(curve: iana::EllipticCurve, x: Vec<u8>, y_sign: bool) ->« (r:» Self«)
+        ensures r.inner().kty == KeyType::Assigned(iana::KeyType::EC2), Self::key_other_fields_default(r.inner()),
+            r.inner().params@.len() == 3,
+            r.inner().params@[0].0 == Label::Int(-1i64) && Self::is_int_value(r.inner().params@[0].1, curve.spec_to_i64() as int),
+            r.inner().params@[1] == (Label::Int(-2i64), Value::Bytes(x)), r.inner().params@[2] == (Label::Int(-3i64), Value::Bool(y_sign)),» {
         Self(CoseKey {
             kty: KeyType::Assigned(iana::KeyType::EC2),
             params: vec![
@@ -594,7 +606,12 @@ impl CoseKeyBuilder {
         x: Vec<u8>,
         y: Vec<u8>,
         d: Vec<u8>,
-    ) -> Self {
+    ) ->« (r:» Self«)
+        ensures r.inner().kty == KeyType::Assigned(iana::KeyType::EC2), Self::key_other_fields_default(r.inner()),
+            r.inner().params@.len() == 4,
+            r.inner().params@[0].0 == Label::Int(-1i64) && Self::is_int_value(r.inner().params@[0].1, curve.spec_to_i64() as int),
+            r.inner().params@[1] == (Label::Int(-2i64), Value::Bytes(x)), r.inner().params@[2] == (Label::Int(-3i64), Value::Bytes(y)),
+            r.inner().params@[3] == (Label::Int(-4i64), Value::Bytes(d)),» {
         let mut builder = Self::new_ec2_pub_key(curve, x, y);
         builder
             .0
@@ -604,7 +621,9 @@ impl CoseKeyBuilder {
     }
 
     /// Constructor for a symmetric key specified by `k`.
-    pub fn new_symmetric_key(k: Vec<u8>) -> Self {
+    pub fn new_symmetric_key(k: Vec<u8>) ->« (r:» Self«)
+        ensures r.inner().kty == KeyType::Assigned(iana::KeyType::Symmetric), Self::key_other_fields_default(r.inner()),
+            r.inner().params@.len() == 1, r.inner().params@[0] == (Label::Int(-1i64), Value::Bytes(k)),» {
         Self(CoseKey {
             kty: KeyType::Assigned(iana::KeyType::Symmetric),
             params: vec![(
@@ -616,7 +635,8 @@ impl CoseKeyBuilder {
     }
 
     /// Constructor for a octet keypair key.
-    pub fn new_okp_key() -> Self {
+    pub fn new_okp_key() ->« (r:» Self«)
+        ensures r.inner().kty == KeyType::Assigned(iana::KeyType::OKP), Self::key_other_fields_default(r.inner()), r.inner().params@.len() == 0,» {
         Self(CoseKey {
             kty: KeyType::Assigned(iana::KeyType::OKP),
             ..Default::default()
@@ -625,21 +645,26 @@ impl CoseKeyBuilder {
 
     /// Set the key type.
     #[must_use]
-    pub fn key_type(self, key_type: iana::KeyType) -> Self { let mut self_ = self;
+    pub fn key_type(self, key_type: iana::KeyType) ->« (r:» Self«)
+        ensures r.inner() == (CoseKey { kty: KeyType::Assigned(key_type), ..self.inner() }),» { let mut self_ = self;
         self_.0.kty = KeyType::Assigned(key_type);
         self_
     }
 
     /// Set the algorithm.
     #[must_use]
-    pub fn algorithm(self, alg: iana::Algorithm) -> Self { let mut self_ = self;
+    pub fn algorithm(self, alg: iana::Algorithm) ->« (r:» Self«)
+        ensures r.inner() == (CoseKey { alg: Some(Algorithm::Assigned(alg)), ..self.inner() }),» { let mut self_ = self;
         self_.0.alg = Some(Algorithm::Assigned(alg));
         self_
     }
 
     /// Add a key operation.
     #[must_use]
-    pub fn add_key_op(self, op: iana::KeyOperation) -> Self { let mut self_ = self;
+    pub fn add_key_op(self, op: iana::KeyOperation) ->« (r:» Self«)
+        ensures r.inner() == (CoseKey { key_ops: r.inner().key_ops, ..self.inner() }), r.inner().key_ops@ == self.inner().key_ops@.insert(KeyOperation::Assigned(op)),» { let mut self_ = self;«
+        broadcast use vstd::std_specs::btree::group_btree_axioms;
+        proof { lemma_reglabel_obeys_cmp::<iana::KeyOperation>(); }»
         self_.0.key_ops.insert(KeyOperation::Assigned(op));
         self_
     }
